@@ -124,6 +124,7 @@ func main() {
 	genCache()
 	genRun()
 	genTTL()
+	genResolv()
 	if forProp == "" || forProp == "C15" {
 		genLockset()
 	}
